@@ -3,6 +3,6 @@ CONSTANTS
   Stride = 4
 INIT Init
 NEXT Next
-INVARIANTS C07_DeclaredMethodRuns C07_UncoveredOutcomeActsAsNoReply C07_UnknownIdIsError C08_RequestedRepliesAreHandled C09_NoHandlerOnBadData
+INVARIANTS C07_DeclaredMethodRuns C07_UncoveredOutcomeActsAsNoReply C07_UnknownIdIsError C08_RequestedRepliesAreHandled C09_NoHandlerOnBadData C06_LegacyReplyAlwaysRuns
 POSTCONDITION EmitTables
 CHECK_DEADLOCK FALSE
